@@ -16,7 +16,8 @@ RULE = (
     "(row, col) in its values. Oracle: RefPlateCarree computes, in numpy.longdouble, the fractional column/row of the point "
     "under the documented layout of the variant; the returned value must be one of the admissible cells (floor, plus the "
     "neighbour across any cell boundary closer than 1e-9 cells - 1e-5 for the Galactic variant -, the seam neighbour of column "
-    "0 being column nx-1). Output shape = request shape + colour axes; no exception. The Galactic variant is checked after an "
+    "0 being column nx-1). Output shape = request shape + colour axes; no exception. One case in 15 repeats its points cyclically into "
+    "a large request (256x256 ... 70000x1, 1x3000, 600x130): same shape rule, equal points get equal pixels. The Galactic variant is checked after an "
     "independent ICRS->Galactic rotation (Hipparcos matrix). The ecliptic sampler's layout is not among those the property "
     "enumerates: only shape / in-range / periodicity are judged for it. Non-trivial: nx,ny>=2 and >=1 point farther than the "
     "tolerance from every cell boundary."
@@ -102,8 +103,15 @@ def exec_case(case):
         data = code
     pts = case["points"]
     shape = tuple(case["shape"])
-    lon = np.array([p[0] + 2 * math.pi * p[2] for p in pts], dtype=float).reshape(shape)
-    lat = np.array([p[1] for p in pts], dtype=float).reshape(shape)
+    big = case.get("big")
+    if big:
+        # a request larger than one tile (any 2-D shape is a legal request): the generated points repeated cyclically
+        shape = tuple(big)
+        idx = np.arange(shape[0] * shape[1]) % len(pts)
+    else:
+        idx = np.arange(len(pts))
+    lon = np.array([p[0] + 2 * math.pi * p[2] for p in pts], dtype=float)[idx].reshape(shape)
+    lat = np.array([p[1] for p in pts], dtype=float)[idx].reshape(shape)
     with toasty_call("no-exception", f"{variant} sampler on a {ny}x{nx} map"):
         f = make_sampler(variant, data)
         out = np.asarray(f(lon.copy(), lat.copy()))
@@ -111,9 +119,16 @@ def exec_case(case):
     if out.shape != exp_shape:
         raise Violation("shape", f"{variant}: output shape {out.shape}, expected {exp_shape}")
     vals = out.reshape((-1,) + ((planes,) if planes else ()))
+    if big:
+        # equal inputs give equal outputs; the first len(pts) entries are then judged one by one
+        rep = vals[: len(pts)][idx]
+        if not np.array_equal(rep, vals):
+            k = int(np.nonzero((rep != vals).reshape(len(idx), -1).any(axis=1))[0][0])
+            raise Violation("cell", f"{variant} sampler, {ny}x{nx} map, request of shape {shape}: element {k} (row {k // shape[1]}, col {k % shape[1]}) and element {k % len(pts)} hold the same point but got different pixels")
+        vals = vals[: len(pts)]
     n_clear = 0
     tol = 1e-5 if variant == "galactic" else 1e-9
-    flon, flat = lon.ravel(), lat.ravel()
+    flon, flat = lon.ravel()[: len(pts)], lat.ravel()[: len(pts)]
     if variant == "galactic":
         from .. import reftoast as rt
 
@@ -146,7 +161,10 @@ def exec_case(case):
     if variant == "ecliptic":
         # periodicity only: same answer for lon and lon + 2*pi*k (exact same float latitudes)
         with toasty_call("no-exception"):
-            out2 = np.asarray(f(np.array([p[0] for p in pts], dtype=float).reshape(shape), lat.copy()))
+            out2 = np.asarray(f(np.array([p[0] for p in pts], dtype=float)[idx].reshape(shape), lat.copy()))
+        if out2.shape != out.shape:
+            raise Violation("shape", f"{variant}: output shape {out2.shape}, expected {exp_shape}")
+        out, out2 = out.reshape(len(idx), -1)[: len(pts)], out2.reshape(len(idx), -1)[: len(pts)]
         diff = (out2 != out).reshape(len(pts), -1).any(axis=1)
         # a shifted longitude differs from the base one by rounding only; allow neighbours: compare cells
         for i in np.nonzero(diff)[0]:
@@ -165,6 +183,8 @@ def exec_case(case):
         cls.append("shifted-by-turns")
     if any(abs(abs(p[1]) - math.pi / 2) < 1e-12 for p in pts):
         cls.append("pole-row")
+    if big:
+        cls.append("request-larger-than-a-tile" if shape[0] * shape[1] > 65536 else "request-of-odd-shape")
     return Outcome(classes=cls, nontrivial=nx >= 2 and ny >= 2 and n_clear >= 1, count=len(pts), info={"clear_points": n_clear})
 
 
@@ -196,7 +216,10 @@ def strat(draw, tier):
             lon = draw(st.floats(-2 * math.pi, 2 * math.pi))
             lat = draw(st.floats(-math.pi / 2, math.pi / 2))
         pts.append([lon, lat, turns])
-    return {"variant": variant, "ny": ny, "nx": nx, "planes": planes, "points": pts, "shape": [a, b]}
+    case = {"variant": variant, "ny": ny, "nx": nx, "planes": planes, "points": pts, "shape": [a, b]}
+    if draw(st.integers(0, 14)) == 0:
+        case["big"] = draw(st.sampled_from([[256, 256], [520, 256], [256, 520], [600, 130], [130, 600], [70000, 1], [1, 3000], [300, 300], [257, 256], [1000, 70]]))
+    return case
 
 
 PARTS = [
